@@ -25,6 +25,8 @@ type Conn struct {
 	readDeadline, writeDeadline time.Time
 
 	closing bool // Guard against Write calls once Close() is called.
+
+	rest []byte // Received data not yet delivered by Read (caller's buffer was smaller than the frame).
 }
 
 func newConn(p *Port, dstCall string, via ...string) *Conn {
@@ -162,6 +164,11 @@ func (c *Conn) Write(p []byte) (int, error) {
 }
 
 func (c *Conn) Read(p []byte) (int, error) {
+	if len(c.rest) > 0 {
+		n := copy(p, c.rest)
+		c.rest = c.rest[n:]
+		return n, nil
+	}
 	ctx := context.Background()
 	if !c.readDeadline.IsZero() {
 		var cancel func()
@@ -176,11 +183,9 @@ func (c *Conn) Read(p []byte) (int, error) {
 		if !ok {
 			return 0, io.EOF
 		}
-		if len(p) < len(f.Data) {
-			panic("buffer overflow")
-		}
-		copy(p, f.Data)
-		return len(f.Data), nil
+		n := copy(p, f.Data)
+		c.rest = f.Data[n:]
+		return n, nil
 	}
 }
 
